@@ -111,3 +111,61 @@ def norm_cmp(term, outcome=True):
 
 def inside(node, root):
     return any(n is node for n in ast.walk(root))
+
+
+class CondUnknown(Exception):
+    pass
+
+
+def eval_cond(test, env):
+    """Evaluate a guard over a finite valuation: names (looked up in ``env``
+    by source text of the sub-expression first, so ``obj.attr`` can be an
+    atom too), constants, not / and / or, == != in not-in is is-not.
+    Raises CondUnknown for anything else."""
+    txt = ast.unparse(test)
+    if txt in env:
+        return env[txt]
+    if isinstance(test, ast.Constant):
+        return test.value
+    if isinstance(test, ast.UnaryOp) and isinstance(test.op, ast.Not):
+        return not eval_cond(test.operand, env)
+    if isinstance(test, ast.BoolOp):
+        vals = (eval_cond(v, env) for v in test.values)
+        if isinstance(test.op, ast.And):
+            r = True
+            for v in vals:
+                r = v
+                if not r:
+                    return r
+            return r
+        r = False
+        for v in vals:
+            r = v
+            if r:
+                return r
+        return r
+    if isinstance(test, ast.Compare):
+        left = eval_cond(test.left, env)
+        for op, comp in zip(test.ops, test.comparators):
+            right = eval_cond(comp, env)
+            if isinstance(op, ast.Eq):
+                ok = left == right
+            elif isinstance(op, ast.NotEq):
+                ok = left != right
+            elif isinstance(op, ast.In):
+                ok = left in right
+            elif isinstance(op, ast.NotIn):
+                ok = left not in right
+            elif isinstance(op, ast.Is):
+                ok = left is right
+            elif isinstance(op, ast.IsNot):
+                ok = left is not right
+            else:
+                raise CondUnknown(txt)
+            if not ok:
+                return False
+            left = right
+        return True
+    if isinstance(test, (ast.Tuple, ast.List, ast.Set)):
+        return [eval_cond(e, env) for e in test.elts]
+    raise CondUnknown(txt)
